@@ -905,7 +905,10 @@ impl<K: KeyT, V: ValT> World<K, V> {
         // the lazy algebra iterators are Clone + Debug: a clone taken after one step must yield
         // exactly the rest, and formatting must not consume anything
         fn with_clone<'x, K: KeyT + 'x, I: Iterator<Item = &'x K> + Clone + std::fmt::Debug>(mut it: I, collect: &dyn Fn(&mut dyn Iterator<Item = &'x K>) -> Vec<u32>) -> Vec<u32> {
+            // size_hint must bracket what is still to come (asked before and after one step)
+            let (lo0, hi0) = sut(|| it.size_hint());
             let first = sut(|| it.next());
+            let (lo1, hi1) = sut(|| it.size_hint());
             sut(|| debug_to_sink(&it));
             let mut c = sut(|| it.clone());
             let mut a: Vec<u32> = first.iter().map(|k| k.kv()).collect();
@@ -915,6 +918,12 @@ impl<K: KeyT, V: ValT> World<K, V> {
                 a.push(u32::MAX - 1);
             }
             a.extend(rest);
+            let total = a.len();
+            let after_first = total - first.is_some() as usize;
+            if lo0 > total || hi0.map_or(false, |h| h < total) || lo1 > after_first || hi1.map_or(false, |h| h < after_first) {
+                // reported through the element list so that it surfaces as a wrong result
+                a.push(u32::MAX - 2);
+            }
             a
         }
         let co = call(|| match alg {
